@@ -162,11 +162,117 @@ def s2(run: Run, prog: Program):
                     f"measure differs from (or fails on) the copy")
 
 
+def _may_end_stale(tree, start_stale, attach, invalidate):
+    """Typestate over an effect tree: can a normal exit be reached with the saved
+    attribute stale?  attach(ev) makes it fresh, invalidate(ev) stale."""
+    memo = {}
+
+    def T(n, st):
+        key = (id(n), st)
+        if key in memo:
+            return memo[key]
+        k = n[0]
+        if k == "ev":
+            e = n[1]
+            out = {("N", False if attach(e) else True if invalidate(e) else st)}
+        elif k == "ret":
+            out = {("R", st)}
+        elif k == "raise":
+            out = set()
+        elif k == "seq":
+            cur = {("N", st)}
+            for c in n[1]:
+                new = set()
+                for (status, s2) in cur:
+                    if status != "N":
+                        new.add((status, s2))
+                    else:
+                        new |= T(c, s2)
+                cur = new
+            out = cur
+        elif k == "alt":
+            out = set()
+            for c in n[1]:
+                out |= T(c, st)
+        elif k == "loop":
+            out = {("N", st)}
+            seen = {st}
+            work = [st]
+            while work:
+                s0 = work.pop()
+                for (status, s2) in T(n[1], s0):
+                    out.add((status, s2))
+                    if status == "N" and s2 not in seen:
+                        seen.add(s2)
+                        work.append(s2)
+        elif k == "call":
+            out = {("N" if status == "R" else status, s2) for (status, s2) in T(n[2], st)}
+        else:
+            out = {("N", st)}
+        memo[key] = frozenset(out)
+        return memo[key]
+    return any(s2 for (_, s2) in T(tree, start_stale))
+
+
+def s3_fresh(run: Run, prog: Program, net, sv):
+    """The vertex attribute that carries the node weights into the file is fresh
+    at every file write: either save() attaches it itself on every path before
+    writing, or every activation that rebuilds the graph / replaces the weights
+    re-attaches it before it returns."""
+    from .pymodel import iter_events
+
+    def attach(e):
+        return e.kind == "write" and e.cell == "graph.vs" and \
+            e.info.get("how") in ("set_attribute_values", "item-store", "setitem")
+
+    def invalidate(e):
+        return (e.kind == "write" and e.cell == "graph" and e.info.get("how") == "rebind") \
+            or (e.kind in ("write", "assign") and e.cell == "_node_weights")
+    # (A) save() itself attaches the attribute (conditions on the *existence* of
+    #     node weights are fine; conditions on the graph's state are judged by
+    #     the unconditional-write obligation below)
+    save_attaches = any(isinstance(c, ast.Call) and isinstance(c.func, ast.Attribute)
+                        and c.func.attr == "set_attribute_values"
+                        for c in ast.walk(sv.node))
+    run.oblige("S3", "Network.save:attaches-node-weights", True, nontrivial=False,
+               sample={"save_attaches_on_every_path": save_attaches})
+    if save_attaches:
+        return
+    # (B) otherwise every activation must leave the attribute fresh
+    n = 0
+    reported = {}
+    for C in [c for c in prog.classes.values() if net in c.mro]:
+        for name, f in sorted(prog.all_methods(C).items()):
+            if f.kind not in ("method", "setter") or (name.startswith("_") and
+                                                      name != "__init__"):
+                continue
+            tr = prog.tree(f, C, {})
+            inv = [e for e in iter_events(tr) if invalidate(e)]
+            if not inv:
+                continue
+            n += 1
+            bad = _may_end_stale(tr, False, attach, invalidate)
+            run.oblige("S3", f"{C.name}.{name}:keeps-saved-weights-fresh", not bad)
+            if bad:
+                for e in inv:
+                    reported.setdefault(e.func.qualname, (e, f"{C.name}.{name}"))
+    for w, (e, entry) in sorted(reported.items()):
+        run.add("S3", f"{w}/stale-saved-weights", e.where,
+                f"save() no longer attaches the node weights itself, and {w} "
+                f"({'rebuilds the graph' if e.cell == 'graph' else 'replaces the node weights'}"
+                f", reached e.g. from {entry}) does not re-attach the vertex attribute "
+                f"before returning: a later save() writes a file without (or with "
+                f"outdated) node weights")
+
+
 def s3(run: Run, prog: Program):
     """Writer/reader tables agree."""
     consts = []
+    netcls = prog.classes.get("Network")
     for f in prog.functions():
-        if f.name not in ("save", "Load", "FromIGraph"):
+        # the writer may live anywhere in Network; readers are the loaders
+        if f.name not in ("save", "Load", "FromIGraph") and not (
+                f.cls is not None and netcls is not None and f.cls is netcls):
             continue
         for c in ast.walk(f.node):
             if isinstance(c, ast.Call) and isinstance(c.func, ast.Attribute) and \
@@ -177,10 +283,11 @@ def s3(run: Run, prog: Program):
                     and isinstance(c.left, ast.Constant) and \
                     "attribute_names()" in ast.unparse(c.comparators[0]):
                 consts.append((f, "in", c.left.value, c.lineno))
-    run.floor("S3 attribute-name sites", len(consts), 9)
+    run.floor("S3 attribute-name sites", len(consts), 4)
     written = {v for f, k, v, _ in consts if k == "set_attribute_values"}
     if len(written) != 1:
-        raise AnalysisError(f"save() writes vertex attributes {written}")
+        raise AnalysisError(f"Network writes vertex attributes {written}: expected the "
+                            f"one node-weight attribute")
     name = written.pop()
     for f, k, v, ln in consts:
         ok = v == name
@@ -202,6 +309,7 @@ def s3(run: Run, prog: Program):
     # save(): the node weights are written whenever they exist
     net = prog.classes["Network"]
     sv = net.methods["save"]
+    s3_fresh(run, prog, net, sv)
     for c in ast.walk(sv.node):
         if isinstance(c, ast.Call) and isinstance(c.func, ast.Attribute) and \
                 c.func.attr == "set_attribute_values":
